@@ -4,7 +4,7 @@
 -/
 import FcModel.Spec.C06
 import FcProofs.Lemmas.MergeStructured
-namespace Fc
+namespace Fc.C06
 
 theorem mem_insertSortedDistinct (x y : Int) (l : List Int) :
     y ∈ insertSortedDistinct x l ↔ y = x ∨ y ∈ l := by
@@ -199,4 +199,4 @@ theorem axis_recovery (o : Int) (ns : List Nat) (hpos : ∀ n ∈ ns, 0 < n) (bs
     · intro y
       simp only [List.mem_map, List.mem_range, hbs]
 
-end Fc
+end Fc.C06
